@@ -7,8 +7,10 @@ set -u
 ids=${@:-C01 C02 C03 C04 C05 C06 C07 C08 C09 C10 C11 C12 C13 C14 C15 C16 C17 C18 C19 C20}
 C=/tmp/cov
 LT=$(dirname $(find ~/.rustup/toolchains/nightly-x86_64-unknown-linux-gnu -name llvm-profdata | head -1))
-rm -rf $C; mkdir -p $C/raw
-rsync -a --exclude 'harness/target*' --exclude '.git' --exclude 'work/tree/cache-*' --exclude 'replays' /verif/ $C/verif/
+# COV_KEEP=1 keeps the profiles of an earlier run (to add checks); result caches under work/ are NOT copied: every stream really runs
+if [ "${COV_KEEP:-0}" != "1" ]; then rm -rf $C; fi
+mkdir -p $C/raw
+rsync -a --exclude 'harness/target' --exclude 'harness/target-hooks' --exclude '.git' --exclude 'work' --exclude 'replays' /verif/ $C/verif/
 cd $C/verif
 export VERIF_COV=1 LLVM_PROFILE_FILE="$C/raw/%p-%8m.profraw"
 for id in $ids; do
